@@ -367,6 +367,7 @@ def shard(tier, i, n, seed):
     common.setup_repo()
     acc = common.Acc()
     depth = 4 if tier == 'quick' else 5
+    acc.outcome('tz|' + common.set_tz(i))
     for cfg in configs():
         explore(acc, cfg, depth, i, n)
         if acc.extra.get('cap_hit'):
@@ -385,6 +386,15 @@ def finish(tier, merged, results):
 
 
 def replay(case):
+    for k in range(len(common.TZS)):
+        common.set_tz(k)
+        ok, text = _replay(case)
+        if not ok:
+            return ok, '%s (TZ=%s)' % (text, common.TZS[k])
+    return ok, text
+
+
+def _replay(case):
     common.setup_repo()
     cfg = tuple(case['cfg'])
     w = World(*cfg)
